@@ -270,6 +270,7 @@ func (s *requestStream) ReadResponse() (*http.Response, error) {
 	if (isInformational || isNoContent || isSuccessfulConnect) && res.ContentLength == -1 {
 		res.ContentLength = 0
 	}
+	s.responseBody = respBody
 	if s.requestedGzip && res.Header.Get("Content-Encoding") == "gzip" {
 		res.Header.Del("Content-Encoding")
 		res.Header.Del("Content-Length")
@@ -277,16 +278,14 @@ func (s *requestStream) ReadResponse() (*http.Response, error) {
 		s.responseBody = compress.NewGzipReader(respBody)
 		res.Uncompressed = true
 	} else if s.AutoDecompression {
-		contentEncoding := res.Header.Get("Content-Encoding")
-		if contentEncoding != "" {
+		// Leave the response alone unless the encoding is one we can decode.
+		if cr := compress.NewCompressReader(respBody, res.Header.Get("Content-Encoding")); cr != nil {
 			res.Header.Del("Content-Encoding")
 			res.Header.Del("Content-Length")
 			res.ContentLength = -1
 			res.Uncompressed = true
-			res.Body = compress.NewCompressReader(respBody, contentEncoding)
+			s.responseBody = cr
 		}
-	} else {
-		s.responseBody = respBody
 	}
 	res.Body = s.responseBody
 	return res, nil
